@@ -121,7 +121,7 @@ func ListEvalSiblingConditions(p *core.Program, r *core.Report, rule string) {
 				w := facts.NewWalker(info)
 				f := w.Cond(ifs.Cond)
 				s := facts.StripVersions(facts.String(f))
-				return strings.ReplaceAll(s, ports.Name(), "PORTS"), ifs.Pos()
+				return strings.ReplaceAll(s, core.RefName(ports), "PORTS"), ifs.Pos()
 			}
 			return "", fd.Decl.Pos()
 		}
@@ -196,10 +196,10 @@ func LabelMatchingByLibrary(p *core.Program, r *core.Report, rule string) {
 		how := core.ExprStr(e)
 		if c, isC := e.(*ast.CallExpr); isC {
 			if fn := core.Callee(info, c); fn != nil {
-				if fn.Name() == "Matches" && fn.Pkg() != nil && strings.HasSuffix(fn.Pkg().Path(), "apimachinery/pkg/labels") {
+				if core.RefName(fn) == "Matches" && fn.Pkg() != nil && strings.HasSuffix(fn.Pkg().Path(), "apimachinery/pkg/labels") {
 					ok = true
 				}
-				if fn.Name() == "SelectorsFullMatch" {
+				if core.RefName(fn) == "SelectorsFullMatch" {
 					// only for representative peers
 					for _, a := range facts.Atoms(f) {
 						if strings.Contains(strings.ToLower(a), "representative") && facts.Entails(f, facts.Atom(a)) {
@@ -238,10 +238,10 @@ func PeerBeforePorts(p *core.Program, r *core.Report, rule string) {
 		ast.Inspect(fd.Decl.Body, func(nd ast.Node) bool {
 			if c, ok := nd.(*ast.CallExpr); ok {
 				if fn := core.Callee(info, c); fn != nil {
-					if fn.Name() == s.ports {
+					if core.RefName(fn) == s.ports {
 						portsCall = c
 					}
-					if fn.Name() == s.sel {
+					if core.RefName(fn) == s.sel {
 						selCall = c
 					}
 				}
@@ -327,7 +327,7 @@ func EngineBuiltForEveryInput(p *core.Program, r *core.Report, rule string) {
 	w := facts.NewWalker(info)
 	w.Transfer = func(st int, nd ast.Node, f facts.Formula) int {
 		if c, ok := nd.(*ast.CallExpr); ok {
-			if fn := core.Callee(info, c); fn != nil && fn.Name() == "getPolicyEngine" {
+			if fn := core.Callee(info, c); fn != nil && core.RefName(fn) == "getPolicyEngine" {
 				seen = true
 				return 1
 			}
@@ -360,7 +360,7 @@ func EngineBuiltForEveryInput(p *core.Program, r *core.Report, rule string) {
 				return true
 			}
 			fn := core.Callee(ginfo, c)
-			if fn == nil || (fn.Name() != "NewPolicyEngineWithObjects" && fn.Name() != "AddObjectsForExposureAnalysis") {
+			if fn == nil || (core.RefName(fn) != "NewPolicyEngineWithObjects" && core.RefName(fn) != "AddObjectsForExposureAnalysis") {
 				return true
 			}
 			nCalls++
@@ -412,7 +412,7 @@ func SliceShrinkByIdentity(p *core.Program, r *core.Report, rule string) {
 				return nil
 			}
 			for _, nm := range names {
-				if fn.Name() == nm {
+				if core.RefName(fn) == nm {
 					return c
 				}
 			}
@@ -462,7 +462,7 @@ func SliceShrinkByIdentity(p *core.Program, r *core.Report, rule string) {
 				for _, a := range facts.Atoms(f) {
 					if (strings.HasPrefix(a, "eq:") || strings.HasPrefix(a, "cmp:")) && facts.Entails(f, facts.Atom(a)) {
 						for i := 0; i < sig.Params().Len(); i++ {
-							if strings.Contains(a, sig.Params().At(i).Name()) {
+							if strings.Contains(a, core.RefName(sig.Params().At(i))) {
 								ok2 = true
 							}
 						}
@@ -515,7 +515,7 @@ func DiffWorkloadKeyAgreement(p *core.Program, r *core.Report, rule string) {
 			return false
 		}
 		fn := core.Callee(info, c)
-		if fn == nil || fn.Name() != "String" {
+		if fn == nil || core.RefName(fn) != "String" {
 			return false
 		}
 		se, ok := ast.Unparen(c.Fun).(*ast.SelectorExpr)
@@ -624,11 +624,11 @@ func KeyAndMatcherNormaliseAlike(p *core.Program, r *core.Report, rule string) {
 				}
 				switch fn.Pkg().Path() {
 				case "sort", "slices":
-					out[fn.Pkg().Path()+"."+fn.Name()] = true
+					out[fn.Pkg().Path()+"."+core.RefName(fn)] = true
 				case "strings":
-					switch fn.Name() {
+					switch core.RefName(fn) {
 					case "ToLower", "ToUpper", "TrimSpace", "Trim", "Fields", "ReplaceAll", "Replace", "Title":
-						out["strings."+fn.Name()] = true
+						out["strings."+core.RefName(fn)] = true
 					}
 				}
 				if sub := p.ByObj[fn]; sub != nil && sub.Pkg.PkgPath == core.PkgK8s {
